@@ -46,6 +46,16 @@ def run(ctx):
         return p
     with ThreadPoolExecutor(max_workers=parts) as ex:
         outs = list(ex.map(one, range(parts)))
+
+    # the directed scenarios once more on a single processor: a goroutine woken by Close then runs only after the
+    # closer has gone on (different interleavings of 'signal raised' / 'queues closed' / 'receiver resumes')
+    def one1(i):
+        p = os.path.join(ctx.scratch, "life1-%d.ndjson" % i)
+        ctx.run_driver(["life", "-out", p, "-seed", ctx.seed + 1, "-directed", "-count", 200 if thorough else 40, "-part", i, "-parts", 8],
+                       race=False, timeout=900, env={"GOMAXPROCS": "1"})
+        return p
+    with ThreadPoolExecutor(max_workers=8) as ex:
+        outs += list(ex.map(one1, range(8)))
     t = os.path.join(ctx.scratch, "life.ndjson")
     with open(t, "w") as o:
         for p in outs:
